@@ -103,10 +103,13 @@ def run(tier, seed, replay=None):
                 orig_svd = _ex.SVD
                 def spy_svd(mat):
                     U, S, Vh = orig_svd(mat)
-                    fr = _sys._getframe(1)
-                    if fr.f_code.co_name == "permute":
-                        try: swaps.append(int(fr.f_locals["i"]))
-                        except Exception: swaps.append(-1)          # the loop variable is not readable any more: only the number of swaps is compared
+                    fr = _sys._getframe(1); found = None
+                    for _lvl in range(8):                       # the SVD may be called from a helper of permute: look for permute's frame up the stack
+                        if fr is None: break
+                        if fr.f_code.co_name == "permute": found = fr; break
+                        fr = fr.f_back
+                    try: swaps.append(int(found.f_locals["i"]))
+                    except Exception: swaps.append(-1)              # the loop variable is not readable any more: only the number of swaps is compared
                     rec = (U * S.to(U.dtype)) @ Vh
                     nm = float(mat.abs().pow(2).sum().sqrt())
                     if float((rec - mat).abs().pow(2).sum().sqrt()) > 1e-12 * nm + 1e-300: svd_bad.append(list(mat.shape))
